@@ -468,6 +468,19 @@ class LinkSameWithUnits(LinkTwoWay):
     def backwards(self, values):
         return self._converter.to_unit(self._cid2.parent, self._cid2, values, self.units1)
 
+    # The pair inherited from LinkTwoWay would store the bound methods
+    # forwards/backwards, i.e. a reference to the link itself, which cannot be
+    # resolved while the link is being restored. The two component IDs are
+    # all that is needed to re-create the link.
+
+    def __gluestate__(self, context):
+        return dict(cid1=context.id(self._cid1),
+                    cid2=context.id(self._cid2))
+
+    @classmethod
+    def __setgluestate__(cls, rec, context):
+        return cls(context.object(rec['cid1']), context.object(rec['cid2']))
+
 
 class LinkAligned(LinkCollection):
     """
